@@ -2349,7 +2349,10 @@ fn generate_expression(
             }
         }
         ir::Expression::Constructor(type_id, args) => {
-            let ty = generate_type(*type_id, context)?;
+            // The type may be named through a typedef that adds modifiers such as const
+            // These have no meaning for the constructed value and can not be written in a call
+            let unmodified_id = context.module.type_registry.remove_modifier(*type_id);
+            let ty = generate_type(unmodified_id, context)?;
             assert!(ty.modifiers.modifiers.is_empty());
             let name = ast::Expression::Identifier(ty.layout.0);
             let name = Box::new(Located::none(name));
